@@ -14,3 +14,6 @@ chk("C26", "recorded concurrent histories (client-boundary call/return stamps fr
 chk("C04", "online monitor over generated hostile inputs: token spans checked against a position model recomputed from byte offsets; colouring checked by an NFA that accepts exactly 'input with SGR sequences inserted'",
     "Held (apart from listed known findings in error-token paths) on 300k (quick) / 6M (thorough) inputs covering random bytes, the whole token vocabulary, all lexing-mode openers, CRLF, invalid UTF-8, unterminated literals; exploration.",
     "Trusted: the position convention (column = runes since last LF + 1; EndPos = rune containing the last byte). Only the first position discrepancy per input is judged (later ones are consequences).")
+chk("C03", "online crash/hang monitor over generated hostile inputs to the parser, regex front end and type checker (batch and incremental): recover() + child-process supervision with write-ahead journal + per-input CPU budget (SIGQUIT stack of the spinning goroutine names the site)",
+    "Held on 100k (quick) / 3M (thorough) inputs: token soup over the full vocabulary, mutated programs, nesting depth to 600/3000, prefixes of valid programs, regex bodies x 64 flag sets, token-mutated valid programs incl. macros/generators/async through the checker; exploration.",
+    "Termination restated as a CPU budget (20 s per input, typical < 5 ms). Inputs of a few KB; single-file checking only.")
